@@ -25,9 +25,9 @@ VERIF = os.path.dirname(os.path.dirname(os.path.abspath(__file__)))
 def _violations(prop, repo, overlay):
     from mstatic import report
     ctx = report.Ctx(prop, 'quick', repo, overlay)
-    mod = importlib.import_module('mstatic.rules.%s' % prop.lower())
+    from mstatic import rules
     try:
-        mod.run(ctx)
+        rules.run(ctx)
         for r in ctx.rules:
             r.finish()
     except AnalysisError as e:
